@@ -392,6 +392,8 @@ class Evaluator:
         this_lv = None
         if f["kind"] in ("method", "ctor", "conversion") and not f.get("static"):
             pt = self.F.T(f["parent"])
+            if f.get("_self_type") and f["kind"] != "ctor" and not self.record_has_fields(pt):
+                pt = f["_self_type"]       # inherited from a data-less helper base: the object is the class it was found through
             if f["kind"] == "ctor":
                 this_lv = self.new_loc(self.blank(pt), "this")
             else:
@@ -410,6 +412,12 @@ class Evaluator:
             args.append(lv if is_ref(pt) else v)
         res = self._invoke(f, this_lv, args)
         return res, this_lv, args
+
+    def record_has_fields(self, tname):
+        r = self.F.records.get(strip_cvref(tname))
+        if r is None:
+            return True
+        return bool(r["fields"]) or any(self.record_has_fields(self.F.T(b["t"])) for b in r["bases"])
 
     def default_init(self, tname):
         t = strip_cvref(tname)
